@@ -28,6 +28,7 @@ RULES = {
     "R-C01-a": "fit_dtype receives a minimum whenever its argument is a category value that may be negative (to_array, both branches)",
     "R-C01-b": "a store keyed by a mapped value accumulates (membership/get test with a merging sibling branch, or defaultdict(list).append)",
     "R-C01-c": "a caller-chosen common value is not used as a subscript load into a data-keyed plain dict",
+    "R-C01-e": "to_array: the output has the index's shape and is pre-filled with the (mapped) common value; every entry writes its (mapped) first coordinate at (its rows[, its own column]); the filled array is what is returned",
     "R-C01-d": "both construction branches skip exactly `mapped value == common`, key by (mapped value[, column]) and store row positions of the same column",
 }
 
@@ -190,6 +191,74 @@ def rule_d(prog, rep):
     rep.check(len(commons) == 1, "R-C01-d", where, "both branches compare with the same (mapped) common value", "", "different common terms: %s" % sorted(commons)[:2])
 
 
+def _key_comp(t, i):
+    """Is t the i-th component of an entry key?  key[i] or the i-th name of a tuple-unpacked key."""
+    if t.op == "sub" and t.args[0].op == "dkey" and tm.is_const(t.args[1], i):
+        return t.args[0]
+    if t.op == "unpack" and t.args[0].op == "dkey" and t.args[1] == i:
+        return t.args[0]
+    return None
+
+
+def rule_e(prog, rep):
+    fi = prog.func("iindexes", "iindex.to_array")
+    I = Interp(prog, hints.param_types_for("iindexes"), hints.FIELD_TYPES, inline=False)
+    fr = I.run(fi)
+    where = fi.fq
+    self_t, mapping = tm.param("self"), tm.param("mapping")
+    st = [e for e in I.events if e.kind == "store_sub" and not e.stack and e["base"].op == "call" and tm.callee_name(e["base"]) in ("numpy.full", "numpy.empty", "numpy.zeros")]
+    if len(st) != 4:
+        rep.undecided("R-C01-e", where, "to_array schema", "expected four entry stores (mapped/unmapped x 1-D/2-D), found %d" % len(st))
+        return
+    bases = set()
+    for e in st:
+        base = e["base"]
+        bases.add(base)
+        mapped = any(tm.contains(c, lambda x: x == mapping) and not pol for c, pol in e.guards if c.op == "unop" or True if c.op == "unop" and c.args[0] == "not") or tm.contains(e["value"], lambda x: x == mapping)
+        two_d = e["index"].op == "tuple"
+        cons = "to_array, %s, %s" % ("with mapping" if mapped else "no mapping", "2-D" if two_d else "1-D")
+        w = "%s@%d" % (where, e.line)
+        # pre-fill
+        okfill = tm.callee_name(base) == "numpy.full" and len(base.args[1]) >= 2 and base.args[1][0] == tm.T("attr", self_t, "shape")
+        if okfill:
+            fill = base.args[1][1]
+            common = tm.T("attr", self_t, "common")
+            if mapped:
+                okfill = (fill.op == "call" and tm.callee_name(fill) == ".get" and fill.args[0].args[0] == mapping and fill.args[1] and fill.args[1][0] == common) or fill == tm.T("sub", mapping, common)
+            else:
+                okfill = fill == common
+        rep.check(okfill, "R-C01-e", w, cons + ": output = full(self.shape, %scommon)" % ("mapped " if mapped else ""), "", "output is %s" % tm.show(base)[:70],
+                  witness={"inputs": "any index: the rows of the common value read something else"})
+        # value
+        v = e["value"]
+        if mapped:
+            okv = v.op == "sub" and v.args[0] == mapping and _key_comp(v.args[1], 0) is not None
+            dk = _key_comp(v.args[1], 0) if okv else None
+        else:
+            dk = _key_comp(v, 0)
+            okv = dk is not None
+        rep.check(okv, "R-C01-e", w, cons + ": value written = %sfirst coordinate of the entry" % ("mapping of the " if mapped else ""), "", "value written is %s" % tm.show(v)[:60],
+                  witness={"inputs": "2-D index: the column number is written instead of the category"})
+        # index
+        idx = e["index"]
+        if two_d:
+            oki = len(idx.args) == 2 and idx.args[0].op == "dval" and _key_comp(idx.args[1], 1) is not None and dk is not None and idx.args[0].args[:2] == dk.args[:2] and _key_comp(idx.args[1], 1) == dk
+        else:
+            oki = idx.op == "dval" and dk is not None and idx.args[:2] == dk.args[:2]
+        rep.check(oki, "R-C01-e", w, cons + ": written at (the entry's rows%s)" % (", the entry's column" if two_d else ""), "", "written at %s" % tm.show(idx)[:60],
+                  witness={"inputs": "a 2-D index with two columns"})
+        if dk is not None:
+            rep.check(dk.args[0] == self_t, "R-C01-e", w, cons + ": iterates the receiver's entries", "", "iterates %s" % tm.show(dk.args[0])[:40])
+    rets = {a for v, g in fr.returns for a in tm.alts(v)}
+    rep.check(rets and rets <= bases, "R-C01-e", where, "to_array returns the array it filled", "", "returns %s" % [tm.show(r)[:40] for r in rets - bases][:2])
+    # dimensionality test selects the 2-D form exactly when the index has more than one axis
+    for e in st:
+        two_d = e["index"].op == "tuple"
+        g = [(c, pol) for c, pol in flat_guards(e.guards) if c.op == "cmp" and tm.contains(c, lambda x: x.op == "attr" and x.args[1] == "shape")]
+        ok = len(g) == 1 and g[0][0].args[0] == ">" and tm.is_const(g[0][0].args[2], 1) and g[0][1] == two_d
+        rep.check(ok, "R-C01-e", "%s@%d" % (where, e.line), "the %s store is selected by len(self.shape) > 1 being %s" % ("2-D" if two_d else "1-D", two_d), "", "selected by %s" % [(tm.show(c)[:30], p) for c, p in g])
+
+
 def main(tier):
     rep = core.Report("C01", level="other", rules=RULES, tier=tier,
                       declined="the round trip equals the input element for element, for every array and option (values); only four structural necessary conditions are decided")
@@ -200,6 +269,7 @@ def main(tier):
     rule_b(prog, rep)
     rule_c(prog, rep)
     rule_d(prog, rep)
+    rule_e(prog, rep)
     return rep.finish()
 
 
